@@ -14,7 +14,7 @@ from bctmc.runner import guarded
 from bctmc.tally import Tally
 
 PROPERTY = 'C10'
-RULE = ('every free tree on 8-9 nodes under the scan orders of bctmc/trees.py (3354 labelled trees, 0/1); the structured 7-10 node family of bctmc/named.py (0/1) and all 0/1 digraphs n<=4 and graphs n<=5 for the weighted/binary pairs; all symmetric matrices over {0,1/8,1} on 4 '
+RULE = ('every free tree on 8 nodes under the scan orders of bctmc/trees.py (951 labelled trees, 0/1); the structured 7-10 node family of bctmc/named.py (0/1) and all 0/1 digraphs n<=4 and graphs n<=5 for the weighted/binary pairs; all symmetric matrices over {0,1/8,1} on 4 '
         'nodes (and the binary graphs) for the directed/undirected pairs; weighted matrices over {0,1/8,1} (sym n=4, dir n=3) and signed {-1,0,1} (sym n=5, weights that cancel) (dir '
         'n=3) vs their binarisation for the weight-ignoring routines (quick also: all 6-node graphs for the distance/betweenness/efficiency pairs; thorough: und n=6 all pairs, sym weighted n=5, dir weighted '
         'n=4); non-trivial = input with unequal degrees and a triangle or an unreachable pair')
@@ -37,7 +37,7 @@ FAMILIES = {
 
 def plan(ctx):
     units = []
-    for tag in ('bintree_und', 'bin_und', 'bin_dir'):
+    for tag in ('bintree8_und', 'bin_und', 'bin_dir'):
         for (a, b) in ss.ranges(len(named.family(tag)), 16):
             units.append(('named:' + tag, a, b))
     for name, (kind, n, alpha, tier) in FAMILIES.items():
